@@ -676,7 +676,7 @@ def r16_7(ctx, repo):
                             'stream is re-seeded from entropy)' % (
                                 cname, ', '.join(sorted(seed_fields)),
                                 U(call.func)))
-    ctx.floor(rule, 2)
+    ctx.floor(rule, 1)
 
 
 def r16_4(ctx, repo):
